@@ -403,13 +403,42 @@ def generate(rng, index, tier):
     faults_on = rng.random() < 0.5
     ops = []
     n_ops = rng.randint(2, 20 if tier == 'thorough' else 9)
+    shadow_fixed = set()
+    n_all = n_ll
+    after_fix = False
     for _ in range(n_ops):
         r = rng.random()
-        if r < 0.15 and shape == 'll':
-            ops.append({'op': 'fix', 'on': 'll', 'set': [
-                [rng.randint(0, 30), None if rng.random() < 0.3
-                 else round(rng.uniform(0.3, 1.5), 3)]
-                for _ in range(rng.randint(1, 3))]})
+        if after_fix and shape == 'll':
+            # straight after a fix: sensitivities first (a plain evaluation
+            # would rebuild the sensitivity solver and heal a stale one),
+            # every coordinate differenced
+            after_fix = False
+            ops.append({'op': 'check', 'on': 'll',
+                        'point': rng.randint(0, 2),
+                        'order': 's1_first', 'fd': list(range(n_all))})
+            continue
+        if r < 0.2 and shape == 'll':
+            mode = rng.random()
+            free = [i for i in range(n_all) if i not in shadow_fixed]
+            if mode < 0.4 and shadow_fixed and free:
+                # swap of equal size in one call: release one, fix another
+                a = rng.choice(sorted(shadow_fixed))
+                b = rng.choice(free)
+                st = [[a, None], [b, round(rng.uniform(0.3, 1.5), 3)]]
+                shadow_fixed.discard(a)
+                shadow_fixed.add(b)
+            else:
+                st = []
+                for _ in range(rng.randint(1, 3)):
+                    i = rng.randrange(n_all)
+                    if rng.random() < 0.3:
+                        st.append([i, None])
+                        shadow_fixed.discard(i)
+                    else:
+                        st.append([i, round(rng.uniform(0.3, 1.5), 3)])
+                        shadow_fixed.add(i)
+            ops.append({'op': 'fix', 'on': 'll', 'set': st})
+            after_fix = rng.random() < 0.7
         elif r < 0.27 and shape in ('ll', 'lp', 'hier'):
             on = 'll' if shape != 'hier' else 'll_i0'
             ops.append({'op': 'set_regimen', 'on': on,
